@@ -64,12 +64,12 @@ def _strategy(maxW: int):
                 st_ = draw(gen.st_step(npar, cfg["gscale"], edits=False, allow_absent=False))
                 st_["mask"] = [True] + [draw(st.booleans()) for _ in range(npar - 1)]
                 steps.append(st_)
-        if draw(st.sampled_from([False] * 5 + [True])):
+        if draw(st.sampled_from([False, False, False, True])):
             # class "many parameters, few rows": 9-14 parameters whose leading dimension is smaller than the shard count, so that most ranks hold
             # no rows of most parameters (the lists of non-empty local shards differ from rank to rank and have gaps)
-            npar = draw(st.integers(9, 14))
+            npar = draw(st.integers(9, 20))
             tail = draw(st.sampled_from([[4], [3], [2, 2], []]))
-            shapes = [[draw(st.sampled_from([1, 1, 2, S, S + 1]))] + list(tail) for _ in range(npar)]
+            shapes = [[draw(st.sampled_from([1, 1, 1, 2, S, S + 1]))] + list(tail) for _ in range(npar)]
             cfg["mpd"] = max(cfg["mpd"], 4)
             steps = [draw(gen.st_step(npar, cfg["gscale"], edits=False)) for _ in range(T)]
         dc.st_param_edits(draw, steps, len(shapes))
